@@ -105,7 +105,10 @@ def run(chk):
         flow.run_g(chk, mod, cfg, replay_g, nontrivial=c01.nontrivial_g, sample_every=40009, timeout=3000)
 
     part(datatype_schemas(), 18 if quick else 24, 3 if quick else 4)
-    part(schemas.family(chk.seed + 1, 4 if quick else 20), 18 if quick else 24, 4 if quick else 5)
+    fam = schemas.family(chk.seed + 1, 4 if quick else 20)
+    part(fam, 18 if quick else 24, 4)
+    if not quick:
+        part(fam[:12], 12, 5)
     chk.exhaustive = True
     chk.note("schema_digest_mismatches", len(loadgen.DIGEST_MISMATCH))
     chk.note("schemas", len(docs))
